@@ -470,6 +470,26 @@ def composite_basis_case(ctx, k):
     A = A.tocoo()
     extra = {(int(i), int(j)) for i, j, v in zip(A.row, A.col, A.data) if v != 0} - allowed
     ctx.check("sparsity-inside-cooccurrence", not extra, mech="composite-basis:sparsity", extra=lambda: sorted(extra)[:5], **tag)
+    # the @ operator (equal_dofnum): both blocks keep their own numbers (no offsets), N is the first basis' N; and a
+    # composite of facet bases (the two sides of interior facets)
+    if ncomp == 2 and comps[0].N == comps[1].N:
+        cq = comps[0] @ comps[1]
+        wantq = np.vstack([np.asarray(comps[0].element_dofs), np.asarray(comps[1].element_dofs)])
+        ctx.check("tables-agree-with-rows", int(cq.N) == int(comps[0].N) and np.array_equal(np.asarray(cq.element_dofs), wantq),
+                  mech="composite-basis:equal-dofnum-blocks", N=int(cq.N), **tag)
+        ctx.reached("composite-basis-equal-dofnum")
+    f2t_ = np.asarray(mesh.f2t)
+    if kind != "line" and (f2t_[1] >= 0).any():
+        e_ = EL.by_name(names[0]).make()
+        f0 = skfem.InteriorFacetBasis(mesh, e_, side=0)
+        f1 = skfem.InteriorFacetBasis(mesh, EL.by_name(names[0]).make(), side=1, quadrature=f0.quadrature)
+        cf = f0 @ f1
+        itf_ = np.nonzero(f2t_[1] >= 0)[0]
+        edf = np.asarray(f0.dofs.element_dofs)
+        wantf = np.vstack([edf[:, f2t_[0, itf_]], edf[:, f2t_[1, itf_]]])
+        ctx.check("tables-agree-with-rows", int(cf.N) == int(f0.N) and np.array_equal(np.asarray(cf.element_dofs), wantf),
+                  mech="composite-basis:two-sides-of-interior-facets", **tag)
+        ctx.reached("composite-basis-of-facet-bases")
     ctx.reached(f"composite-basis-{min(ncomp, 3)}{'+' if ncomp >= 3 else ''}-components")
     ctx.nontrivial("composite-basis", kind, tuple(names))
 
@@ -586,4 +606,5 @@ FAMILIES.append(Family("composite-basis", composite_basis_case, 24, 480))
 FAMILIES.append(Family("periodic", periodic_case, 12, 240))
 FAMILIES.append(Family("registry", registry_complete, 1, 1))
 REQUIRED_REACH = ["rectangular-assembly", "periodic-topology", "composite-doflocs", "synthetic-dof-counts", "nested-wrappers",
-                  "facet-basis-sparsity", "dof-locations-on-entities"]
+                  "facet-basis-sparsity", "dof-locations-on-entities", "composite-basis-equal-dofnum",
+                  "composite-basis-of-facet-bases"]
